@@ -7,6 +7,7 @@
 //! usage: c04 run <seed> <quick|thorough>
 //!        c04 worker <seed> <tier> <from> <n>
 //!        c04 replay <json>
+//!        c04 gen <seed> <tier> <index>
 //!
 //! A real `Ok` where the mapping says the types differ, or a real refusal of
 //! the true signature, is an impl violation (the key names the mismatch
@@ -40,6 +41,9 @@ enum ST {
     /// an unconstrained integer / float literal type (filtermap payloads only)
     IntLit,
     FloatLit,
+    /// a type variable nothing resolves (filtermap payloads only: the element
+    /// type of `None` / `[]`, the other side of a lone `Ok(…)`); no Rust counterpart
+    Hole,
     /// script-declared `record`/`enum` that bears a name the language reserves
     /// in the global scope (`record i64 { … }`, `enum Option[T] { … }`): the
     /// type `pkg.<name>[args]`, which has no Rust counterpart
@@ -175,6 +179,7 @@ impl ST {
         match self {
             ST::Shadow(n, _) if CTORS.contains(n) => "script-type-named-like-constructor",
             ST::Shadow(..) => "script-type-named-like-primitive",
+            ST::Hole => "unresolved-type-variable",
             ST::Opt(t) | ST::List(t) => t.why_none(),
             ST::Res(a, b) | ST::Ver(a, b) => {
                 if a.map().is_none() { a.why_none() } else { b.why_none() }
@@ -196,7 +201,7 @@ impl ST {
             ST::Rec => "{a: i32, b: String}".into(),
             ST::NRec => "R0".into(),
             ST::NEnum => "E0".into(),
-            ST::IntLit | ST::FloatLit => unreachable!("literal types have no syntax"),
+            ST::IntLit | ST::FloatLit | ST::Hole => unreachable!("literal types and unresolved variables have no syntax"),
             ST::Opt(t) => {
                 if p.chance(1, 2) {
                     format!("{}?", t.src(p, cx))
@@ -243,6 +248,7 @@ impl ST {
             ST::NEnum => format!("(n {PKG_SCOPE} #{})", hex("E0")),
             ST::IntLit => "intvar".into(),
             ST::FloatLit => "floatvar".into(),
+            ST::Hole => "(var 7)".into(),
             ST::Opt(t) => named("Option", &[t]),
             ST::List(t) => named("List", &[t]),
             ST::Res(a, b) => named("Result", &[a, b]),
@@ -262,7 +268,7 @@ impl ST {
             ST::IntLit => RT::Leaf("i32"),
             ST::FloatLit => RT::Leaf("f64"),
             ST::Reg(k) => RT::Val(*k),
-            ST::Never | ST::Rec | ST::NRec | ST::NEnum | ST::Shadow(..) => return None,
+            ST::Never | ST::Rec | ST::NRec | ST::NEnum | ST::Shadow(..) | ST::Hole => return None,
             ST::Opt(t) => RT::Opt(Box::new(t.map()?)),
             ST::List(t) => RT::List(Box::new(t.map()?)),
             ST::Res(a, b) => RT::Res(Box::new(a.map()?), Box::new(b.map()?)),
@@ -301,6 +307,112 @@ impl ST {
             other => other.clone(),
         }
     }
+}
+
+impl ST {
+    /// does the type contain a literal type variable (at any depth)?
+    fn has_literal(&self) -> bool {
+        match self {
+            ST::IntLit | ST::FloatLit => true,
+            ST::Opt(t) | ST::List(t) => t.has_literal(),
+            ST::Res(a, b) | ST::Ver(a, b) => a.has_literal() || b.has_literal(),
+            _ => false,
+        }
+    }
+    /// depth at which the deepest literal type variable sits (0 = the type itself)
+    fn literal_depth(&self) -> Option<usize> {
+        match self {
+            ST::IntLit | ST::FloatLit => Some(0),
+            ST::Opt(t) | ST::List(t) => t.literal_depth().map(|d| d + 1),
+            ST::Res(a, b) | ST::Ver(a, b) => a.literal_depth().max(b.literal_depth()).map(|d| d + 1),
+            _ => None,
+        }
+    }
+}
+
+/// The payload type a filtermap body can *build* so that it is the type `want`
+/// once the literal defaults are applied: a parameter of exactly that type, an
+/// unconstrained integer / float literal for `i32` / `f64`, `()`, and
+/// `Some(…)`, `[…]`, `Ok(…)`/`Err(…)`, `Verdict.Accept(…)`/`Verdict.Reject(…)`
+/// around buildable types. `None`: the body cannot produce a value of the type.
+fn buildable(want: &ST, params: &[ST], cx: &Cx) -> Option<ST> {
+    // In a script that re-declares reserved names a parameter's written type
+    // may denote the script's own type: only literals and constructors there.
+    if cx.shadow.is_empty() && params.contains(want) {
+        return Some(want.clone());
+    }
+    let params = if cx.shadow.is_empty() { params } else { &[] };
+    Some(match want {
+        ST::Prim("i32") => ST::IntLit,
+        ST::Prim("f64") => ST::FloatLit,
+        ST::Unit => ST::Unit,
+        ST::Opt(t) => ST::Opt(Box::new(buildable(t, params, cx)?)),
+        ST::List(t) => ST::List(Box::new(buildable(t, params, cx)?)),
+        ST::Res(a, b) => ST::Res(Box::new(buildable(a, params, cx)?), Box::new(buildable(b, params, cx)?)),
+        // `Verdict.Accept(…)` names the type: not when the script has its own `Verdict`
+        ST::Ver(a, b) if cx.shadowed("Verdict").is_none() => {
+            ST::Ver(Box::new(buildable(a, params, cx)?), Box::new(buildable(b, params, cx)?))
+        }
+        _ => return None,
+    })
+}
+
+/// Expressions whose types, unified (as the payloads of several `accept`
+/// statements of one filtermap are), give exactly the payload type `t`.
+/// Empty: nothing can be written (`Result[?, ?]`).
+fn exprs_of(t: &ST, params: &[ST]) -> Vec<String> {
+    if let Some(i) = params.iter().position(|q| q == t) {
+        return vec![format!("p{i}")];
+    }
+    let wrap = |t: &ST, l: &str, r: &str| -> Vec<String> {
+        exprs_of(t, params).into_iter().map(|e| format!("{l}{e}{r}")).collect()
+    };
+    match t {
+        ST::IntLit => vec!["70000".into()],
+        ST::FloatLit => vec!["0.5".into()],
+        ST::Unit => vec!["()".into()],
+        ST::Opt(x) if **x == ST::Hole => vec!["None".into()],
+        ST::Opt(x) => wrap(x, "Some(", ")"),
+        ST::List(x) if **x == ST::Hole => vec!["[]".into()],
+        ST::List(x) => {
+            // the elements of a list literal are unified with each other
+            let es = exprs_of(x, params);
+            if es.is_empty() { vec![] } else { vec![format!("[{}]", es.join(", "))] }
+        }
+        ST::Res(a, b) => {
+            let mut v = if **a == ST::Hole { vec![] } else { wrap(a, "Ok(", ")") };
+            if **b != ST::Hole {
+                v.extend(wrap(b, "Err(", ")"));
+            }
+            v
+        }
+        ST::Ver(a, b) => {
+            let mut v = if **a == ST::Hole { vec![] } else { wrap(a, "Verdict.Accept(", ")") };
+            if **b != ST::Hole {
+                v.extend(wrap(b, "Verdict.Reject(", ")"));
+            }
+            v
+        }
+        _ => vec![],
+    }
+}
+
+/// `t` with one component below a constructor left unresolved: the payload
+/// `Some(70000)` becomes `None`, `[[0.5]]` becomes `[[]]`, `Ok(1)`+`Err(0.5)`
+/// loses one of the two. `None` if `t` has no constructor.
+fn with_hole(t: &ST, params: &[ST], p: &mut Prng) -> Option<ST> {
+    let spots = t.count_nodes();
+    for _ in 0..8 {
+        let mut k = 1 + p.below(spots.max(2) as u64 - 1) as usize;
+        if k >= spots {
+            continue;
+        }
+        let t2 = t.rewrite(&mut k, &mut |_x: &ST| ST::Hole);
+        if t2 != *t && !exprs_of(&t2, params).is_empty() {
+            return Some(t2);
+        }
+    }
+    None
 }
 
 /// The script type a Rust type is the image of; `Val<Unreg>` has none — the
@@ -372,6 +484,9 @@ enum Side {
     Param(usize),
     IntLit,
     FloatLit,
+    /// a payload the body builds (`Some(70000)`, `[p0, p0]`, `Ok(1)` and
+    /// `Err(0.5)` in two statements): the type inference gives it this type
+    Built(ST),
 }
 
 #[derive(Clone, Debug)]
@@ -412,6 +527,7 @@ impl Decl {
             Side::Param(i) => self.params[*i].clone(),
             Side::IntLit => ST::IntLit,
             Side::FloatLit => ST::FloatLit,
+            Side::Built(t) => t.clone(),
         }
     }
 
@@ -434,19 +550,28 @@ impl Decl {
                 )
             }
             Kind::Filtermap(a, r) => {
-                let stmt = |kw: &str, s: &Side| match s {
-                    Side::Unused => None,
-                    Side::NoPayload => Some(kw.to_string()),
-                    Side::Param(i) => Some(format!("{kw} p{i}")),
-                    Side::IntLit => Some(format!("{kw} 1")),
-                    Side::FloatLit => Some(format!("{kw} 1.5")),
+                // the statements of the body: one per payload expression
+                let stmts = |kw: &str, s: &Side| -> Vec<String> {
+                    match s {
+                        Side::Unused => vec![],
+                        Side::NoPayload => vec![kw.to_string()],
+                        Side::Param(i) => vec![format!("{kw} p{i}")],
+                        Side::IntLit => vec![format!("{kw} 1")],
+                        Side::FloatLit => vec![format!("{kw} 1.5")],
+                        Side::Built(t) => {
+                            let ps: &[ST] = if cx.shadow.is_empty() { &self.params } else { &[] };
+                            exprs_of(t, ps).into_iter().map(|e| format!("{kw} {e}")).collect()
+                        }
+                    }
                 };
-                let body = match (stmt("accept", a), stmt("reject", r)) {
-                    (Some(x), Some(y)) => format!("if true {{ {x} }} else {{ {y} }}"),
-                    (Some(x), None) => x,
-                    (None, Some(y)) => y,
-                    (None, None) => unreachable!(),
-                };
+                let mut all = stmts("accept", a);
+                all.extend(stmts("reject", r));
+                assert!(!all.is_empty(), "a filtermap uses at least one side");
+                // if true { s1 } else { if true { s2 } else { … sn } }
+                let mut body = all.pop().unwrap();
+                while let Some(st) = all.pop() {
+                    body = format!("if true {{ {st} }} else {{ {body} }}");
+                }
                 format!("filtermap {}({}) {{ {body} }}\n", self.name, params.join(", "))
             }
             Kind::Test => format!("test {} {{ accept }}\n", self.name),
@@ -454,12 +579,18 @@ impl Decl {
     }
 
     fn sexp(&self, cx: &Cx) -> String {
-        format!(
-            "(fn #{} ({}) {})",
-            hex(&self.key()),
-            self.params.iter().map(|t| t.sexp(cx)).collect::<Vec<_>>().join(" "),
-            self.ret.sexp(cx)
-        )
+        let params = self.params.iter().map(|t| t.sexp(cx)).collect::<Vec<_>>().join(" ");
+        if let Kind::Filtermap(a, r) = &self.kind {
+            // a filtermap goes to the model as what the body does with each side
+            // (`unused`, or the type of the payload); the model derives the
+            // signature (`filtermapSignature`: fresh variables, `force_filtermap_types`)
+            let side = |s: &Side| match s {
+                Side::Unused => "unused".to_string(),
+                other => self.side_ty(other).sexp(cx),
+            };
+            return format!("(fm #{} ({params}) {} {})", hex(&self.key()), side(a), side(r));
+        }
+        format!("(fn #{} ({params}) {})", hex(&self.key()), self.ret.sexp(cx))
     }
 
     fn show(&self, cx: &Cx) -> String {
@@ -674,6 +805,8 @@ fn variant(p: &mut Prng, e: &Entry, which: u64, cx: &Cx) -> (Vec<ST>, ST, &'stat
             }
             if hit { "named-like-primitive" } else { "exact" }
         }
+        // the signature itself stays; the caller leaves a component of a built payload unresolved
+        13 => "exact",
         8 => {
             // a type with no Rust counterpart somewhere
             let repl = [ST::Rec, ST::NRec, ST::NEnum][p.below(3) as usize].clone();
@@ -940,7 +1073,7 @@ struct Plan {
 }
 
 fn boundary_count(thorough: bool) -> u64 {
-    if thorough { 40 } else { 12 }
+    if thorough { 44 } else { 14 }
 }
 
 fn plan(seed: u64, index: u64, thorough: bool) -> Plan {
@@ -971,7 +1104,11 @@ fn plan(seed: u64, index: u64, thorough: bool) -> Plan {
             4 => Plan { cx: Cx { env: 2, shadow: vec![] }, kind: "registered-type-named-like-primitive", focus: vec!["i64", "Val"], forced: vec![12] },
             5 => Plan { cx: Cx { env: 3, shadow: vec![] }, kind: "registered-type-named-like-primitive", focus: vec!["bool", "Option", "Val"], forced: vec![12] },
             6 => std("one-sided-arity", vec![], vec![10, 11]),
-            _ => std("one-sided-arity", vec![], vec![10, 11, 10]),
+            7 => std("one-sided-arity", vec![], vec![10, 11, 10]),
+            // filtermaps whose payloads are built from literals nothing else
+            // constrains, below Option / List / Result / Verdict (13: one
+            // component of the payload left unresolved)
+            _ => std("literal-payload", vec![], vec![13]),
         };
     }
     let mut p = Prng::for_case(seed ^ 0x504c414e, index);
@@ -1043,7 +1180,15 @@ fn gen_script(fam: &[Entry], seed: u64, index: u64, thorough: bool) -> (Script, 
                 let want = (j + 1 + (index as usize % 2)).min(7);
                 pick_where(&mut p, &|e| e.args.len() == want)
             }
+            _ if script_kind == "literal-payload" => {
+                // walk the `lit` group: 8 targets per script, the walk starts
+                // where the seed says and continues in the next such script
+                let lit: Vec<usize> = (0..fam.len()).filter(|i| fam[*i].group == "lit").collect();
+                let nth = index as usize - (boundary_count(thorough) as usize - if thorough { 4 } else { 2 });
+                lit[(seed as usize * 5 + nth * targets_n + j) * 3 % lit.len()]
+            }
             0 | 2 | 4 | 6 => ((index as usize * 4 + j / 2) * 389 + (seed as usize % 997)) % fam.len(),
+            1 if p.chance(1, 3) => pick_where(&mut p, &|e| e.group == "lit"),
             1 => pick_where(&mut p, &|e| e.group == "fm"),
             3 => pick_where(&mut p, &|e| all(e).iter().any(has_binary)),
             5 => pick_where(&mut p, &|e| all(e).iter().any(|r| r.depth() >= 2)),
@@ -1054,7 +1199,7 @@ fn gen_script(fam: &[Entry], seed: u64, index: u64, thorough: bool) -> (Script, 
     let mut exact_of: Vec<Option<usize>> = vec![None; targets_n];
     for (j, &t) in targets.iter().enumerate() {
         let e = &fam[t];
-        let fm_shaped = e.group == "fm" || (matches!(e.ret, RT::Ver(..)) && p.chance(1, 2));
+        let fm_shaped = e.group == "fm" || e.group == "lit" || (matches!(e.ret, RT::Ver(..)) && p.chance(1, 2));
         for v in 0..variants_n {
             let which = if v == 0 {
                 0
@@ -1070,6 +1215,7 @@ fn gen_script(fam: &[Entry], seed: u64, index: u64, thorough: bool) -> (Script, 
             // verdict whose sides can be produced by the body
             let mut kind = Kind::Fn;
             let mut label2 = label;
+            let mut hole = false;
             if fm_shaped {
                 if let ST::Ver(a, r) = &ret {
                     let side = |s: &ST, p: &mut Prng| -> Option<Side> {
@@ -1084,10 +1230,25 @@ fn gen_script(fam: &[Entry], seed: u64, index: u64, thorough: bool) -> (Script, 
                         match s {
                             ST::Prim("i32") => Some(Side::IntLit),
                             ST::Prim("f64") => Some(Side::FloatLit),
-                            _ => None,
+                            // a payload the body builds: constructors around
+                            // parameters and unconstrained literals
+                            _ => buildable(s, &params, &cx).map(Side::Built),
                         }
                     };
-                    if let (Some(sa), Some(sr)) = (side(a, &mut p), side(r, &mut p)) {
+                    if let (Some(mut sa), Some(mut sr)) = (side(a, &mut p), side(r, &mut p)) {
+                        if which == 13 {
+                            // one component of a built payload stays an unresolved variable
+                            let first = p.chance(1, 2);
+                            for s in if first { [&mut sa, &mut sr] } else { [&mut sr, &mut sa] } {
+                                if let Side::Built(t) = s {
+                                    if let Some(t2) = with_hole(t, if cx.shadow.is_empty() { &params } else { &[] }, &mut p) {
+                                        *s = Side::Built(t2);
+                                        hole = true;
+                                        break;
+                                    }
+                                }
+                            }
+                        }
                         if !(sa == Side::Unused && sr == Side::Unused) {
                             kind = Kind::Filtermap(sa, sr);
                             label2 = match label {
@@ -1101,7 +1262,7 @@ fn gen_script(fam: &[Entry], seed: u64, index: u64, thorough: bool) -> (Script, 
             // what the written types denote in this script (re-declared names)
             let params: Vec<ST> = params.iter().map(|t| cx.shadowize(t)).collect();
             let ret = cx.shadowize(&ret);
-            let was_exact = label == "exact";
+            let was_exact = label == "exact" && !hole;
             if !cx.shadow.is_empty() && (params.iter().any(|t| matches!(t.why_none(), w if w.starts_with("script-type"))) || ret.why_none().starts_with("script-type")) {
                 label2 = match (&kind, label) {
                     (Kind::Filtermap(..), _) => "filtermap-redeclared-name",
@@ -1112,6 +1273,12 @@ fn gen_script(fam: &[Entry], seed: u64, index: u64, thorough: bool) -> (Script, 
             let mut d = Decl { name, kind, params, ret, label: label2, target: t };
             if let Kind::Filtermap(a, r) = &d.kind {
                 d.ret = ST::Ver(Box::new(d.side_ty(a)), Box::new(d.side_ty(r)));
+                // literal type variables below a constructor: the class the defaults must reach
+                if hole {
+                    d.label = "filtermap-unresolved-payload";
+                } else if d.ret.literal_depth().is_some_and(|k| k >= 2) && d.label != "filtermap-redeclared-name" {
+                    d.label = if d.label == "filtermap-exact" { "filtermap-nested-literal-exact" } else { "filtermap-nested-literal-near" };
+                }
             }
             // the pair with its own target, and with one or two other targets
             let di = decls.len();
@@ -1130,6 +1297,16 @@ fn gen_script(fam: &[Entry], seed: u64, index: u64, thorough: bool) -> (Script, 
             if thorough || p.chance(1, 3) {
                 let r = pick_where(&mut p, &|e| e.args.len() == ar && e.ret == fam[t].ret);
                 pairs.push(Pair { decl: Some(di), name: d.ask(), entry: r, label: format!("cross:{}", d.label) });
+            }
+            // a payload built from literals: every family member of the arity
+            // whose verdict sides differ from the defaults in width / signedness /
+            // float width / order at the literal's position
+            if matches!(d.kind, Kind::Filtermap(..)) && d.ret.has_literal() && d.ret.literal_depth() >= Some(2) {
+                for (i, e) in fam.iter().enumerate() {
+                    if i != t && e.args.len() == ar && (e.group == "lit" || e.group == "litnear") && (thorough || e.args == fam[t].args) {
+                        pairs.push(Pair { decl: Some(di), name: d.ask(), entry: i, label: "literal-payload-other-type".into() });
+                    }
+                }
             }
             // one-sided arities: also `fn() -> R` and the one-parameter prefix
             if matches!(label, "arity-plus-k-suffix" | "arity-plus-1") {
@@ -1475,7 +1652,7 @@ fn run_script(fam: &[Entry], rts: &[Runtime<NoCtx>], drv: &mut Driver, rep: &mut
         };
         rep.class(format!("{}|{}|{}|a{}", pr.label, kind, class_s, e.args.len()));
         // one sample per label, the trigger classes of the boundary stream first
-        let wanted = ["redeclared-name", "filtermap-redeclared-name", "named-like-primitive", "as-primitive-of-same-name", "prefix-of-parameters", "exact", "filtermap-exact", "leaf-changed", "swapped-type-args"];
+        let wanted = ["filtermap-nested-literal-exact", "filtermap-unresolved-payload", "literal-payload-other-type", "redeclared-name", "filtermap-redeclared-name", "named-like-primitive", "as-primitive-of-same-name", "prefix-of-parameters", "exact", "filtermap-exact", "leaf-changed", "swapped-type-args"];
         if pr.decl.is_some() && wanted.contains(&pr.label.as_str()) {
             let dup = rep.samples.iter().filter(|s| s["label"] == pr.label.as_str()).count();
             if dup < 1 {
@@ -1572,6 +1749,19 @@ fn main() {
                 println!("START {i}");
                 run_script(&fam, &rts, &mut drv, &mut rep, seed, i, thorough);
             }
+        }
+        Some("gen") => {
+            // print script number <index> of a run and the requests made on it (for the builder)
+            let seed: u64 = args[2].parse().unwrap();
+            let thorough = args[3] == "thorough";
+            let index: u64 = args[4].parse().unwrap();
+            let fam = family();
+            let (s, pairs) = gen_script(&fam, seed, index, thorough);
+            println!("// kind: {}  env: {}\n{}", s.kind, s.cx.env, s.src);
+            for pr in &pairs {
+                println!("// {:<32} {:<10} {}", pr.label, pr.name, fam[pr.entry].show());
+            }
+            return;
         }
         Some("replay") => {
             // {script, env, history: [{name, rust_type}…], name, rust_type}: compile, make the
